@@ -115,7 +115,10 @@ def verify_function(ex, con, prop=None):
                 outs = [(s2_, "ret" if tag2_ == "ok" else tag2_, v_) for (s2_, tag2_, v_) in
                         ex.call(fn, [], dict(a), st0, fr)]
         except Unsupported as e:
-            info["unreached"] = ((info["unreached"] + "; ") if info["unreached"] else "") + "variant %s: %s" % (variant, e)
+            why = info.setdefault("_why", {})
+            why.setdefault(str(e), []).append(variant)
+            info["unreached"] = "; ".join("variant%s %s: %s" % ("s" if len(vs) > 1 else "", ", ".join(vs[:4]) + (
+                " ... (%d)" % len(vs) if len(vs) > 4 else ""), r_) for r_, vs in why.items())
             continue
         except Exception as e:  # a crash of the generator is not a verdict about the code
             info["unreached"] = "variant %s: generator error %s" % (variant, traceback.format_exc(limit=-5))
